@@ -503,7 +503,7 @@ func runCheck(id, tier, only string, workers int, verbose bool) int {
 	}
 	var fl []fe
 	for f, n := range funcs {
-		if strings.Contains(f, module) && !strings.Contains(f, "verifh") && !strings.Contains(f, ".Verif") && !strings.Contains(f, ".verif") {
+		if strings.Contains(f, module) && !strings.Contains(f, "verifh") && !harnessFn.MatchString(f) {
 			fl = append(fl, fe{strings.ReplaceAll(f, module+"/", ""), n})
 		}
 	}
@@ -841,6 +841,10 @@ var instrOnce struct {
 	done bool
 	m    map[string]string
 }
+
+// harnessFn matches functions and types that belong to the harness files (VerifXxx entry points,
+// vXxx helpers, mXxx reference-model code), which are not "functions of the code under test".
+var harnessFn = regexp.MustCompile(`[.(*](Verif|v[A-Z]|m[A-Z])[A-Za-z0-9]*[).$]|\.(Verif|v[A-Z]|m[A-Z])[A-Za-z0-9]*$`)
 
 func instrumentLocks(scratch string) map[string]string {
 	if instrOnce.done {
